@@ -5,9 +5,10 @@ import common as C
 import scen, sprop, oracle_tp, refpeer as R
 from scen import payload
 
+import netcorr
 FILES = ['theories/Base.v', 'theories/gen/Codec.v', 'theories/gen/Tp21Gen.v', 'theories/gen/CaGen.v', 'theories/gen/Tp22Gen.v', 'theories/CodecGlue.v',
          'theories/Model21.v', 'theories/Model22.v', 'theories/Replay21.v', 'theories/Replay22.v', 'proofs/CodecProofs.v', 'proofs/Flat.v', 'proofs/MpgProofs.v',
-         'proofs/NoOversleep22.v']
+         'proofs/NoOversleep22.v', 'proofs/Net21.v', 'proofs/Net21Proofs.v', 'proofs/Net22.v', 'proofs/Net22Proofs.v', 'proofs/Net22Bam.v', 'proofs/Net22Mpg.v']
 LEGAL = [0, 1, 2, 3, 4, 5, 6, 7, 8, 12, 16, 20, 24, 32, 48, 64]
 FBFF, FEFF = 2, 3
 
@@ -207,6 +208,20 @@ def run(out, tier, rng, work):
                 '(Model22); non-trivial = a frame with more than one group or padding was sent'
                 ' Cyclic application timers on the sending ECU in 30 %.')
     out.assumptions = ['A1-A6 of DESIGN.md section 3', 'FBFF frames are not received by the stack (11-bit ids are dropped by the listener): decoded by the oracle only']
-    sprop.run_stateful(out, 'C11', tier, rng, work, FILES, gen, oracle, 120, 3000, nontrivial,
+    # the multi-PG closed loop of theorem C11_closed_loop_delivers_every_group against two real FD stacks: the frame, its time,
+    # the callbacks on B in order
+    C.std_proof_stage(out, 'C11', FILES)
+    nn, nmism, nerrors, nbad = netcorr.run(work, rng, 10 if tier == 'quick' else 150, tag='c11net', only='mpg')
+    out.extra['closed_loop_cases'] = nn
+    for c, sc, what in nbad[:1]:
+        out.violation(what, dict(kind='closed-loop-not-delivered'),
+                      dict(broke='oracle', scenario=sc, violation=dict(kind='closed-loop-not-delivered', what=what), scenario_name='closed-loop',
+                           how='./check replay <this file> re-runs the scenario on /repo and prints the oracle verdict'))
+    for name, o in nerrors[:3]:
+        out.broken.append('closed-loop correspondence %s did not evaluate: %s' % (name, o[-200:].replace('\n', ' ')))
+    for c, i, m, im in nmism[:3]:
+        out.broken.append('closed-loop correspondence: network model and two real stacks differ (case %s) at observation %s: model %s / impl %s'
+                          % (str(c)[:300], i, str(m)[:120], str(im)[:120]))
+    sprop.run_stateful(out, 'C11', tier, rng, work, FILES, gen, oracle, 120, 3000, nontrivial, proof=False,
                        sample=lambda sc, res: dict(sends=[e['a'][1:3] + [e['a'][5]['len']] + e['a'][6:8] for e in sc['script'] if e['op'] == 'send'][:5],
                                                    frames=sum(1 for e in res.trace if e[2] == 'tx')))
